@@ -41,6 +41,17 @@ DEFAULT_SPEC = {
     "chr_order": 0,        # permutation index for chromosome length ranking (pads tails)
     "tie_perm": 0,         # permutation seed for record order among equal positions
     "exp_polya": None,     # per-experiment list: 0 = this experiment's reads are polyA-trimmed
+    "gene_naming": 0,      # 0: G<n>; 1: zg<n> (lower case, sorts after novel_gene_); 2: si:dkey-<n>
+    "group_naming": 0,     # 0: grp<n>/g<nn>; 1: G<n> (sorts before NA); 2: <n>x (digit first); 3: mixed case
+    "drop_chr_annotation": 0,  # genes of the last k chromosomes are left out of the GTF (reads stay)
+    "readthrough": 0,      # k same-strand genes that duplicate another gene's first isoform under a new gene id
+    "mirror": 0,           # k antisense genes with exon coordinates identical to another gene's first isoform
+    "intergenic_multi": 0, # k reads whose only usable alignments are tied multi-exon secondaries in gene-free loci
+    "deep_gene": 0,        # 1: one gene gets ~230 reads (200/20 per isoform, 3 novel, 10 truncated)
+    "long_locus": 0,       # 1: extra chromosome chrL with a > 64 kb read island that IsoQuant splits at a coverage valley
+    "exp_bams": None,      # per-experiment number of files (overrides n_bams)
+    "novel_one_file": 0,   # reads of unannotated isoforms all go to the first file of their experiment
+    "bam_split": "random", # how reads are dealt into files: random | chunks (contiguous by position) | tiny (one file gets 1 read)
 }
 
 CHR_NAMES = ["chr1", "chr2", "chr10", "chrX", "chr3", "chrM", "chr11", "chr4"]
@@ -90,6 +101,21 @@ def _plant_sites(seq, exons, strand, canonical=True):
             _plant(seq, istart, "AA"); _plant(seq, iend - 1, "TT")
 
 
+def group_name(s, k):
+    ng, sch = s["groups"], s.get("group_naming", 0) % 4
+    if sch == 1:
+        return "G%d" % k
+    if sch == 2:
+        return "%dx" % k
+    if sch == 3:
+        return ["Alpha", "beta", "NB", "na", "Zeta", "delta", "Mu", "omega", "K9", "q1", "R2", "x0"][k % 12] + ("" if k < 12 else str(k))
+    return "grp%d" % k if ng < 10 else "g%02d" % k
+
+
+def gene_name(s, n):
+    return ["G%d", "zg%d", "si:dkey-%d"][s.get("gene_naming", 0) % 3] % n
+
+
 def generate(spec):
     """returns ground truth dict with python objects (chroms, genes, reads)"""
     s = full_spec(spec)
@@ -115,7 +141,7 @@ def generate(spec):
                 pos += elen + rg.randrange(150, 600)
             strand = "+" if rg.random() < 0.5 else "-"
             gcount += 1
-            g = Gene("G%d" % gcount, name, strand, exons)
+            g = Gene(gene_name(s, gcount), name, strand, exons)
             cg.append(g)
             cursor = exons[-1][1] + 1200 + rg.randrange(800)
         layout.append(cursor)
@@ -161,7 +187,7 @@ def generate(spec):
             tj = (ci + 1) % n_chr
             off = layout[tj] - g.exons[0][0]
             gcount += 1
-            p = Gene("G%d" % gcount, CHR_NAMES[tj], g.strand, [(a + off, b + off) for a, b in g.exons])
+            p = Gene(gene_name(s, gcount), CHR_NAMES[tj], g.strand, [(a + off, b + off) for a, b in g.exons])
             p.isoforms = [(p.gid + "." + tid.split(".")[-1], idx) for tid, idx in g.isoforms]
             p.paralog_of = g
             p.noncanon = g.noncanon
@@ -175,10 +201,26 @@ def generate(spec):
         (a, b), (c, d) = g.exons[0], g.exons[1]
         gcount += 1
         ex = [(b - 90, b), (c, c + 70)]
-        ag = Gene("G%d" % gcount, g.chrom, "-" if g.strand == "+" else "+", ex)
+        ag = Gene(gene_name(s, gcount), g.chrom, "-" if g.strand == "+" else "+", ex)
         ag.isoforms = [(ag.gid + ".t1", [0, 1])]
         ag.antisense_of = g
         genes[CHR_NAMES.index(g.chrom)].append(ag)
+
+    # read-through genes: same strand, same structure as a host's first isoform, new gene id (annotation only)
+    hosts2 = [g for g in flat if len(g.exons) >= 3]
+    for g in hosts2[: s["readthrough"]]:
+        gcount += 1
+        rt = Gene(gene_name(s, gcount), g.chrom, g.strand, list(g.exons))
+        rt.isoforms = [(rt.gid + ".t1", list(range(len(g.exons))))]
+        rt.annotation_only = True
+        genes[CHR_NAMES.index(g.chrom)].append(rt)
+    # mirror genes: identical exon coordinates on the opposite strand (annotation only)
+    for g in [x for x in flat if len(x.exons) >= 2][-s["mirror"]:] if s["mirror"] else []:
+        gcount += 1
+        mg = Gene(gene_name(s, gcount), g.chrom, "-" if g.strand == "+" else "+", list(g.exons))
+        mg.isoforms = [(mg.gid + ".t1", list(range(len(g.exons))))]
+        mg.annotation_only = True
+        genes[CHR_NAMES.index(g.chrom)].append(mg)
 
     # chromosome lengths: distinct, ranking controlled by chr_order
     base_len = [layout[i] + 300 for i in range(n_chr)]
@@ -196,11 +238,29 @@ def generate(spec):
         rs = random.Random("%d/seq/%s" % (s["seed"], CHR_NAMES[ci]))
         seq = [BASES[rs.randrange(4)] for _ in range(lens[ci])]
         chroms.append([CHR_NAMES[ci], seq])
-    cidx = {CHR_NAMES[i]: i for i in range(n_chr)}
+    names = [CHR_NAMES[i] for i in range(n_chr)]
+    long_genes = []
+    if s["long_locus"]:
+        rs = random.Random("%d/seq/chrL" % s["seed"])
+        L = 92000 + rg.randrange(500)
+        while L in lens:
+            L += 1
+        chroms.append(["chrL", [BASES[rs.randrange(4)] for _ in range(L)]])
+        names.append("chrL")
+        o = rg.randrange(0, 200)
+        gcount += 1
+        l1 = Gene(gene_name(s, gcount), "chrL", "+", [(1000 + o, 1200 + o), (12000 + o, 12200 + o), (24000 + o, 24200 + o), (36000 + o, 36300 + o)])
+        l1.isoforms = [(l1.gid + ".t1", [0, 1, 2, 3])]
+        gcount += 1
+        l2 = Gene(gene_name(s, gcount), "chrL", "-", [(37000 + o, 37300 + o), (49000 + o, 49200 + o), (61000 + o, 61200 + o), (73000 + o, 73300 + o)])
+        l2.isoforms = [(l2.gid + ".t1", [0, 1, 2, 3])]
+        long_genes = [l1, l2]
+        genes.append(long_genes)
+    cidx = {n: i for i, n in enumerate(names)}
     # break accidental homopolymers is unnecessary; plant splice sites
     for cg in genes:
         for g in cg:
-            if g.paralog_of is not None or getattr(g, "antisense_of", None) is not None:
+            if g.paralog_of is not None or getattr(g, "antisense_of", None) is not None or getattr(g, "annotation_only", False):
                 continue
             _plant_sites(chroms[cidx[g.chrom]][1], g.exons, g.strand, canonical=not g.noncanon)
             # all pairs of exons that may become adjacent through skipping share the same donor/acceptor dinucleotides
@@ -254,9 +314,28 @@ def generate(spec):
     rid = 0
     allgenes = [g for cg in genes for g in cg]
     para_of = {p.paralog_of.gid: p for p in paralogs}
+    deep = None
+    if s["deep_gene"]:
+        cands = [g for g in allgenes if len(g.isoforms) >= 2 and g.paralog_of is None and g.gid not in para_of]
+        deep = cands[0] if cands else None
+        if deep is not None and not deep.novel:
+            n = len(deep.exons)
+            known = [iso[1] for iso in deep.isoforms]
+            for skip in range(1, n - 1):
+                c = [i for i in range(n) if i != skip]
+                if c not in known:
+                    deep.novel.append(c)
+                    break
     for g in allgenes:
+        if getattr(g, "annotation_only", False):
+            continue
         variants = [(tid, idx, s["reads_per_iso"], False) for tid, idx in g.isoforms]
         variants += [("novel:%s:%d" % (g.gid, k), idx, s["novel_cov"], True) for k, idx in enumerate(g.novel)]
+        if g is deep:
+            variants = [(tid, idx, 200 if k == 0 else 20, False) for k, (tid, idx) in enumerate(g.isoforms)]
+            variants += [("novel:%s:%d" % (g.gid, k), idx, 3, True) for k, idx in enumerate(g.novel)]
+        if g in long_genes:
+            variants = [(tid, idx, 6, False) for tid, idx in g.isoforms]
         for tid, idx, cov, is_novel in variants:
             for k in range(cov):
                 blocks = [g.exons[i] for i in idx]
@@ -313,6 +392,29 @@ def generate(spec):
         rid += 1
         reads.append({"id": "r%04d" % rid, "src": "intergenic", "gene": None, "kind": "lowmapq",
                       "records": [mk_record(chroms[ci][0], [(60, 230)], "+", False, mapq=0)]})
+    if long_genes:
+        l1, l2 = long_genes
+        e1 = l1.exons[-1][1]
+        e2 = l2.exons[-1][1]
+        extra = [("bridge", [(e1 - 200, l2.exons[0][0] + 200)])]
+        for d in (60, 110, 170, 230, 300):
+            extra.append(("tail", [(e2 - d, e2 - 10)]))
+        for d in (40, 120, 250):
+            extra.append(("valley_edge", [(e1 - d - 60, e1 - d)]))
+        for kind, blocks in extra:
+            rid += 1
+            reads.append({"id": "r%04d" % rid, "src": kind, "gene": None, "kind": kind,
+                          "records": [mk_record("chrL", blocks, "+", False)]})
+    for k in range(s["intergenic_multi"]):
+        if len(chroms) < 2:
+            break
+        ca, cb = chroms[k % 2][0], chroms[(k + 1) % 2][0]
+        blocks = [(30 + k, 85 + k), (120 + k, 180 + k), (215 + k, 270 + k)]
+        rid += 1
+        recs = [mk_record(chroms[(k + 2) % len(chroms)][0], [(300, 380)], "+", False, mapq=0),
+                mk_record(ca, blocks, "+", False, flag_extra=256, with_seq=bool(s["secondary_seq"])),
+                mk_record(cb, blocks, "+", False, flag_extra=256, with_seq=bool(s["secondary_seq"]))]
+        reads.append({"id": "r%04d" % rid, "src": "intergenic", "gene": None, "kind": "intergenic_multi", "records": recs})
     for k in range(s["supplementary"]):
         g = allgenes[k % len(allgenes)]
         rid += 1
@@ -332,7 +434,7 @@ def generate(spec):
     for i, r in enumerate(reads):
         grp = None
         if ng:
-            grp = "grp%d" % (i * 7 % ng) if ng < 10 else "g%02d" % (i * 7 % ng)
+            grp = group_name(s, i * 7 % ng)
             if s["group_missing"] and i % s["group_missing"] == 0:
                 grp = None
         r["group"] = grp
@@ -347,10 +449,38 @@ def generate(spec):
             re_ = random.Random("%d/exp/%d" % (s["seed"], e))
             members = [i for i in range(len(reads)) if re_.random() < 0.6]
         nb = max(1, s["n_bams"])
+        if s.get("exp_bams") and e < len(s["exp_bams"]):
+            nb = max(1, s["exp_bams"][e])
         rb = random.Random("%d/bam/%d" % (s["seed"], e))
         files = [[] for _ in range(nb)]
-        for i in members:
-            files[rb.randrange(nb) if nb > 1 else 0].append(i)
+        mode = s.get("bam_split", "random")
+        if nb > 1 and mode == "chunks":
+            # contiguous by (chromosome order, position): every file is exhausted at a different place
+            order_ = sorted(members, key=lambda i: (cidx[reads[i]["records"][0]["chr"]], reads[i]["records"][0]["pos"], i))
+            cuts = sorted(rb.sample(range(1, max(2, len(order_))), min(nb - 1, max(1, len(order_) - 1))))
+            bounds = [0] + cuts + [len(order_)]
+            for fi in range(nb):
+                files[fi] = order_[bounds[fi]:bounds[fi + 1]] if fi + 1 < len(bounds) else []
+        elif nb > 1 and mode == "tiny":
+            order_ = sorted(members, key=lambda i: (cidx[reads[i]["records"][0]["chr"]], reads[i]["records"][0]["pos"], i))
+            files[nb - 1] = order_[:1]
+            rest = order_[1:]
+            cut = len(rest) // 3 + rb.randrange(max(1, len(rest) // 3))
+            if nb == 2:
+                files[0] = rest
+            else:
+                files[1] = rest[:cut]
+                files[0] = rest[cut:]
+                for i in range(3, nb):
+                    files[i - 1], files[0] = files[0][: len(files[0]) // 2], files[0][len(files[0]) // 2:]
+        else:
+            for i in members:
+                files[rb.randrange(nb) if nb > 1 else 0].append(i)
+        if s.get("novel_one_file") and nb > 1:
+            for fi in range(1, nb):
+                moved = [i for i in files[fi] if str(reads[i]["src"]).startswith("novel:")]
+                files[fi] = [i for i in files[fi] if i not in moved]
+                files[0] += moved
         exps.append({"name": "E%d" % e, "files": files})
     return {"spec": s, "chroms": chroms, "genes": allgenes, "reads": reads, "exps": exps}
 
@@ -363,7 +493,15 @@ def _gtf_lines(truth):
     for g in truth["genes"]:
         by_chr.setdefault(g.chrom, []).append(g)
     n = 0
+    dropped = [c for c, _ in truth["chroms"] if c != "chrL"][len([c for c, _ in truth["chroms"] if c != "chrL"]) - s["drop_chr_annotation"]:] \
+        if s["drop_chr_annotation"] else []
+    used_tids = set()
     for chrom, _ in truth["chroms"]:
+        if chrom in dropped:
+            for g in by_chr.get(chrom, []):
+                g.unannotated = True
+            continue
+        first_on_chr = True
         for g in sorted(by_chr.get(chrom, []), key=lambda g: g.span()):
             gid = g.gid
             a, b = g.span()
@@ -377,8 +515,16 @@ def _gtf_lines(truth):
             for k, (tid, idx) in enumerate(g.isoforms):
                 ex = [g.exons[i] for i in idx]
                 otid = tid
-                if s["pre_ids"] and k == 0 and g.gid.endswith(("1", "2", "4")):
-                    otid = "transcript%d.%s.nic" % (n, chrom)
+                if s["pre_ids"] and k == 0 and first_on_chr and s["pre_ids"] >= 2:
+                    otid = "transcript:ENSX%05d" % n            # Ensembl-GFF3 style id that merely starts with "transcript"
+                elif s["pre_ids"] and k == 0:
+                    # ids left by an earlier IsoQuant run: small numbers, both suffixes
+                    for num in range(1 + n % 3, 60):
+                        otid = "transcript%d.%s.%s" % (num, chrom, "nic" if (num + n) % 2 else "nnic")
+                        if otid not in used_tids:
+                            break
+                used_tids.add(otid)
+                first_on_chr = False
                 g.out_tids.append(otid)
                 if s["gtf_meta"]:
                     lines.append((chrom, "transcript", ex[0][0], ex[-1][1], g.strand,
@@ -421,7 +567,7 @@ def build(spec, outdir, gtf_gz=False, write_bams=True):
               "SQ": [{"SN": n, "LN": len(sq)} for n, sq in truth["chroms"]]}
     ng = s["groups"]
     if ng:
-        header["RG"] = [{"ID": ("grp%d" % i if ng < 10 else "g%02d" % i)} for i in range(ng)]
+        header["RG"] = [{"ID": group_name(s, i)} for i in range(ng)]
     cidx = {n: i for i, (n, _) in enumerate(truth["chroms"])}
     table = os.path.join(outdir, "groups.tsv")
     with open(table, "w") as f:
@@ -528,8 +674,11 @@ def random_spec(rng, profile="small"):
              noncanon=rng.choice([0, 0, 1]), unmapped=rng.choice([0, 2, 5]), secondary_seq=rng.choice([1, 1, 0]),
              supplementary=rng.choice([0, 1]), lowmapq=rng.choice([0, 1, 2]), intergenic=rng.choice([0, 1, 2]),
              jitter=rng.choice([0, 1, 3]), truncate=rng.choice([0, 1]), polya=rng.choice([1, 1, 1, 0]),
-             dup_records=rng.choice([0, 0, 1]), pre_ids=rng.choice([0, 0, 1]), equal_len=rng.choice([0, 0, 1]),
-             chr_order=rng.choice([0, 1, 2]))
+             dup_records=rng.choice([0, 0, 1]), pre_ids=rng.choice([0, 0, 1, 2]), equal_len=rng.choice([0, 0, 1]),
+             chr_order=rng.choice([0, 1, 2]), gene_naming=rng.choice([0, 0, 1, 2]), group_naming=rng.choice([0, 1, 2, 3]),
+             drop_chr_annotation=rng.choice([0, 0, 0, 1]), readthrough=rng.choice([0, 0, 1]), mirror=rng.choice([0, 0, 1]),
+             intergenic_multi=rng.choice([0, 0, 1, 2]), deep_gene=rng.choice([0] * 9 + [1]),
+             long_locus=rng.choice([0, 0, 0, 0, 1]), bam_split=rng.choice(["random", "random", "chunks", "tiny"]))
     return s
 
 
